@@ -38,7 +38,7 @@
       && final(w).faulted == old(w).faulted && !final(w).pay_running
 //@ ensures#ok_is_a_completed_part [C01,C16,C02]
       r is Ok ==> final(w).complete == Some(r->Ok_0@)
-//@ ensures#err_is_final [C02,C16,C08,C05]
+//@ ensures#err_is_final [C02,C16,C08,C05,C03]
       r is Err ==> !live(*final(w))
 //@ end
 
@@ -55,7 +55,7 @@
       rely(*old(w), *final(w))
 //@ ensures#some_is_a_completed_part [C01,C15,C02]
       (r is Ok && r->Ok_0 is Some) ==> final(w).complete == Some(r->Ok_0->Some_0@)
-//@ ensures#none_means_nothing_live [C02,C05,C15,C08]
+//@ ensures#none_means_nothing_live [C02,C05,C15,C08,C03,C16]
       (r is Ok && r->Ok_0 is None) ==> !live(*final(w))
 //@ end
 
